@@ -7,6 +7,8 @@ import HdVerif.Generated.T6p
 import HdVerif.Generated.T6q
 import HdVerif.Generated.T6r
 import HdVerif.Generated.T6s
+import Mathlib.Tactic.Ring
+import Mathlib.Tactic.Linarith
 /-! # C06  Pixel transforms follow the DICOM pipeline and the tri-state flags
 
 Property theorems only.  Definitions under `HdVerif.Gen` are regenerated from /repo's current source on
@@ -1280,6 +1282,33 @@ theorem input_range_fits_type (ba bs : Nat) (h1 : 1 ≤ bs) (h2 : bs ≤ ba) :
   have p2 : (2 : Int) ^ bs ≤ 2 ^ ba := by
     exact_mod_cast Nat.pow_le_pow_right (by norm_num) h2
   refine ⟨⟨?_, ?_⟩, ?_⟩ <;> linarith
+
+
+/-- **T6r feeds T6c**: with the range `[lo, hi]` that `inputType` deduces for integer pixels, the rescale-with-inversion that
+`foldInvert` produces sends the stored value `s` to the rescaled value of its mirror image in the stored range: `2^BitsStored - 1 - s`
+for unsigned pixels, `-1 - s` for signed ones (two's complement) - the minimum of the stored range becomes its maximum (PS3.3
+C.11.6), whatever BitsStored, slope and intercept are; and the mirror image of a value of the range is a value of the range. -/
+theorem inversion_reverses_stored_range (ba rep bs : Int) (m b : Rat) (code lo hi : Int)
+    (ht : inputType false ba rep bs = .ok (code, true, lo, hi)) (s : Int) :
+    (match foldInvert m b lo hi false with
+     | .ok (a, c) => a * (s : Rat) + c = m * (((if rep = 1 then -1 - s else 2 ^ bs.toNat - 1 - s) : Int) : Rat) + b
+     | .error _ => False) ∧
+    (lo ≤ s → s ≤ hi → lo ≤ lo + hi - s ∧ lo + hi - s ≤ hi) := by
+  obtain ⟨code', hspec⟩ := input_range_spec false ba rep bs (by simp)
+  rw [hspec] at ht
+  injection ht with ht
+  have hlo : lo = (if rep = 1 then -(2 ^ (bs - 1).toNat) else 0) := by
+    have := congrArg (fun t : Int × Bool × Int × Int => t.2.2.1) ht; simpa using this.symm
+  have hhi : hi = (if rep = 1 then 2 ^ (bs - 1).toNat - 1 else 2 ^ bs.toNat - 1) := by
+    have := congrArg (fun t : Int × Bool × Int × Int => t.2.2.2) ht; simpa using this.symm
+  constructor
+  · simp only [foldInvert, Bool.false_eq_true, ↓reduceIte]
+    have hsum : lo + hi = (if rep = 1 then -1 else 2 ^ bs.toNat - 1) := by
+      rw [hlo, hhi]; split <;> ring
+    rw [hsum]
+    split <;> (push_cast; ring)
+  · intro h1 h2
+    constructor <;> omega
 
 
 /-! ## Tie: the hand-written model uses the expressions of the current source (bridges, `Proofs/PixelTie.lean`) -/
